@@ -16,6 +16,7 @@ META = {
     'assumptions': ['hmac/md-5 crates compute HMAC-MD5/MD5', 'RC4 permutation values are not evaluated'],
     'trusted_base': ['rustc nightly MIR construction', 'mirfacts exporter', 'rules/c16.py, c01.py, dsl.py, sym.py, facts.py'],
 }
+META['explanation'] += ' (R16.7) gss_unwrapex reads the ciphertext into a buffer created empty in the call; (R16.8) the only refusal it decides itself comes after the checksum comparison.'
 
 SI = 'nla::ntlm::NTLMv2SecurityInterface'
 WRAP = '<%s as nla::sspi::GenericSecurityService>::gss_wrapex' % SI
